@@ -241,7 +241,14 @@ def judge_field(ctx, rec, res, fam, name):
                 return "a square root (observed %s)" % rec.status
             return None if rec.outs[0][1] ** 2 % mod == a[0] else "b with b^2 = a"
         if name == "mulgen":
-            return expect_val(res, rec, (ty, 2 if fam == "fq" else 7))
+            # which generator is used is a free choice; a generator is necessarily a quadratic non-residue
+            res.evals += 1
+            if rec.status != "ok":
+                return "a multiplicative generator"
+            x = rec.outs[0][1]
+            leg = F.fq_legendre(x) if fam == "fq" else F.fr_legendre(x)
+            res.info["multiplicative_generator = %d" % x if x < 100 else "multiplicative_generator is large"] += 1
+            return None if leg == -1 else "a generator of the multiplicative group (must be a non-residue)"
         if name == "consts":
             res.evals += 1
             want = [381, 380, 1] if fam == "fq" else [255, 254, 32]
@@ -444,8 +451,10 @@ def judge_curve(ctx, rec, res, g, name):
         outs = rec.outs[0][1] if rec.outs[0][0] == "l" else [rec.outs[0]]
         for o in outs:
             P = pt(o)[1]
-            if P is None or not in_sub(g, P):
-                return "a non-identity point of the order-r subgroup"
+            if P is None:
+                res.info["random() returned the identity"] += 1
+            if not in_sub(g, P):
+                return "a point of the order-r subgroup"
         return None
     if name in ("mul", "amul", "mulfr"):
         if not on_curve(A[0]):
@@ -458,21 +467,21 @@ def judge_curve(ctx, rec, res, g, name):
         if not 2 <= w <= 22:
             return SKIP
         P = pt(A[0])[1]
-        res.evals += 1
         if rec.status != "ok":
+            res.evals += 1
             return "a table (observed %s)" % rec.status
-        if rec.outs[0][1] != (w, 1 << (w - 1)):
-            return "table of %d entries" % (1 << (w - 1))
-        v = expect_point(res, rec, g, P, idx=1)
-        if v:
-            return "first entry " + v
-        v = expect_point(res, rec, g, smul(g, (1 << w) - 1, P), idx=2)
-        return ("last entry " + v) if v else None
+        # the layout of the table is an implementation detail (the property is about the products): information only
+        good = rec.outs[0][1] == (w, 1 << (w - 1)) and len(rec.outs) == 3 and curve(g).eq(pt(rec.outs[1])[1], P) \
+            and curve(g).eq(pt(rec.outs[2])[1], smul(g, (1 << w) - 1, P))
+        res.info["wnaf table = odd multiples P,3P,..,(2^w-1)P" if good else "wnaf table has another layout"] += 1
+        return SKIP
     if name == "wnaf_tab_entry":
         t = _src(ctx, rec, 0)
-        if t is None or not on_curve(t.args[0]):
+        if t is None or not on_curve(t.args[0]) or rec.status != "ok":
             return SKIP
-        return expect_point(res, rec, g, smul(g, 2 * A[1][1] + 1, pt(t.args[0])[1]))
+        good = curve(g).eq(pt(rec.outs[0])[1], smul(g, 2 * A[1][1] + 1, pt(t.args[0])[1]))
+        res.info["wnaf table entry i = (2i+1)P" if good else "wnaf table entry differs from (2i+1)P"] += 1
+        return SKIP
     if name == "wnaf_form":
         # the recoding itself is not specified by the properties: information only
         if rec.status == "ok":
@@ -602,10 +611,7 @@ def judge_curve(ctx, rec, res, g, name):
         comp = name.startswith("dec_c")
         st, val = EN.decode(g, data, comp, checked=not name.endswith("unchecked"), subgroup_oracle=sub_oracle)
         if st == "ok":
-            v = expect_point(res, rec, g, val)
-            if v is None and val is None and not canonical_affine(rec.outs[0]):
-                return "the canonical identity"
-            return v
+            return expect_point(res, rec, g, val)
         return expect_status(res, rec, "err", val)
     if name in ("hash", "encode"):
         x, msg, dst = A[0][1], A[1][1], A[2][1]
@@ -640,10 +646,18 @@ def judge_curve(ctx, rec, res, g, name):
         t = H.ISO_TABLES[g]
         if rec.status != "ok" or len(rec.outs) != 4:
             return "four coefficient tables"
-        for i in range(4):
-            got = [x[1] for x in rec.outs[i][1]]
-            if got != [FQ.norm(x) if g == 1 else FQ2.norm(x) for x in t[1 + i]]:
-                return "RFC 9380 appendix E table %d" % i
+        f = FQ if g == 1 else FQ2
+        got = [[x[1] for x in rec.outs[i][1]] for i in range(4)]
+        # the same rational functions as RFC 9380 appendix E (a common scaling of numerator and denominator is free):
+        # XN * XD_rfc == XN_rfc * XD and YN * YD_rfc == YN_rfc * YD as polynomials
+        from model.selftest import _pmul, _ptrim
+        for (n_, d_, nr, dr, what) in ((got[0], got[1], t[1], t[2], "x"), (got[2], got[3], t[3], t[4], "y")):
+            lhs = _ptrim(f, _pmul(f, n_, list(dr)))
+            rhs = _ptrim(f, _pmul(f, list(nr), d_))
+            if len(lhs) != len(rhs) or not all(f.is_zero(f.sub(a_, b_)) for a_, b_ in zip(lhs, rhs)) or not _ptrim(f, list(d_)):
+                return "the %s-coordinate map of RFC 9380 appendix E (as a rational function)" % what
+        res.info["live isogeny tables coefficient-wise equal to the RFC tables" if got == [[f.norm(x) for x in t[1 + i]] for i in range(4)]
+                 else "live isogeny tables differ from the RFC tables by a scaling"] += 1
         return None
     if name == "osswu_consts":
         res.evals += 1
